@@ -162,6 +162,18 @@ class C16(Check):
             "claim a label of their own: ApprovalToken(integrity=...), look-alike objects and dicts with data_type / integrity / value, "
             "a list holding a TypedValue, str (model: RawClaim). Exhaustive also: for each of the 21 port types a look-alike "
             "claiming each of the 21 labels and an ApprovalToken of each integrity, as external input and as handler output. "
+            "WHICH OBJECT a handler returns / an external input is (the property knows labels only; model: SFwd / SConst script items): "
+            "n//9 further cases (stream:relay, kept schedulable) add relays - a module gets one more output port fed by handing back the "
+            "very TypedValue object it received on an input port, the value arriving over a downgrading wire or as an over-labelled "
+            "external input, the output port declared with the input port's port type (55%) / the same data type / anything, usually with "
+            "a consumer - and aliases - one TypedValue object that reaches an input port (from outside or as the exactly labelled output "
+            "of the module wired into it) is also returned by some (usually downstream) module on a further output port declared like "
+            "that input port; a fourth pass over 22% of all cases turns script items into 'the object received on input port q' (same data "
+            "type; sometimes both ports are given the same port type) and draws 1-2 TypedValue objects built once per case that are "
+            "returned under several keys / by several modules / in several executions and executors and given as external inputs. "
+            "Exhaustive also: for each of the 21 input port types and each admissible label of the arriving value (42 pairs) a relay with "
+            "an output port of each integrity of that data type and of another data type (4), value from outside / over a wire / "
+            "the same object handed back on two ports. "
             "non-trivial = at least one accepted wire or one handler invocation; distinct by case content")
     LEVEL_TEXT = ("Coq theorems over all diagrams (any number of modules, ports, attempted wires), all handler oracles (raw, labelled, "
                   "mislabelled, raising, wrong key sets), all external inputs and both enforce_static_checks settings, about a "
@@ -171,7 +183,9 @@ class C16(Check):
                   "order with each handler called exactly once; in every execution (also a raising one) handlers are invoked in "
                   "topological order; cycles / missing or duplicate sources / missing handlers raise "
                   "WiringError, so does a wired port that is also fed from outside, and the fuelled loop never runs out of fuel; capabilities "
-                  "are the union; for every history of "
+                  "are the union; a labelled output is accepted iff it carries exactly the declared label, whatever it was checked against "
+                  "before: a relay handing back a value it received is rejected unless that value's own label is the declared one (in "
+                  "particular when it is labelled above an input port of the very port type of the output port); for every history of "
                   "register_module / execute calls on one executor each execution equals that of a fresh executor with the handlers "
                   "registered so far and satisfies all of the above. The model is tied to the code "
                   "by evaluating it in Coq on every generated diagram the implementation ran.")
@@ -182,7 +196,10 @@ class C16(Check):
     TECHNIQUE = "Coq proof by invariant over the executor's scheduling loop + vm_compute correspondence against DiagramExecutor.execute"
     TRUSTED = ["modelled not verified: payloads are integers, a raw payload of another Python type is the integer it wraps plus the data "
                "type / integrity it claims for itself (RawClaim); within one execution handlers are deterministic functions of their "
-               "input dict that do not mutate it and return a dict (or None) or raise; a handler that behaves differently in a later "
+               "input dict that do not mutate it and return a dict (or None) or raise; object identity is not modelled (TypedValue is a "
+               "frozen dataclass and the executor never asks `is` / id()): a handler that hands back the object it received, or one object "
+               "returned in several places, is the Lab of its contents in the model, while the harness really passes the same Python "
+               "object around; a handler that behaves differently in a later "
                "execution is modelled as a re-registration between the two executions; Python dict insertion order = list order; "
                "module and port names are modelled by their insertion index",
                "the property (and its monitor) speaks of diagrams whose wires were created through WiringDiagram.connect; under that "
@@ -482,7 +499,219 @@ class C16(Check):
         # register_module / execute calls on the same executor
         for c in out:
             self._widen2(rng, c)
+        # additional cases, drawn after everything above (so the cases above stay what they were): relays -- modules that hand
+        # back on an output port the very object they received on an input port, over downgrading wires and over-labelled
+        # external inputs, with output ports of the same port type as the input port / of the value's own label / of another label
+        first_new = len(out)
+        for _ in range(max(12, n // 9)):
+            c = self._gen_valid(rng)
+            tags = ["stream:relay"]
+            if rng.random() < 0.8:
+                # keep the diagram schedulable (the random extra attempts of _gen_valid often add a second source or a cycle, and
+                # then no handler runs at all): drop attempts that would be accepted as a second wire into a port or close a cycle
+                acc_set, keep, kept_acc, seen = {tuple(w) for w in accepted_wires(c)}, [], [], set()
+                for w in c["wires"]:
+                    if tuple(w) in acc_set:
+                        if (w[2], w[3]) in seen or has_cycle(len(c["mods"]), kept_acc + [tuple(w)]):
+                            continue
+                        seen.add((w[2], w[3]))
+                        kept_acc.append(tuple(w))
+                    keep.append(w)
+                c["wires"] = keep
+            if rng.random() < 0.25:
+                t = rng.choice([self._mut_cycle, self._mut_selfloop, self._mut_mislabel, self._mut_raise, self._mut_ext_on_wired])(rng, c)
+                if t:
+                    tags.append(t)
+            for _k in range(rng.choice([1, 1, 1, 2])):
+                t = (self._add_relay if rng.random() < 0.65 else self._add_alias)(rng, c)
+                if t and t not in tags:
+                    tags.append(t)
+            c["tags"] = tags
+            out.append(c)
+        for c in out[first_new:]:
+            self._widen(rng, c)
+        for c in out[first_new:]:
+            self._widen2(rng, c)
+        # fourth pass over all cases: WHICH OBJECT a handler returns / an external input is (transparent to the property, which
+        # knows labels only): the object received on an input port, one object shared by several ports / modules / executions
+        for k, c in enumerate(out):
+            self._widen3(rng, c, 0.22 if k < first_new else 0.3)
         return out
+
+    def _ensure_ret(self, rng, md):
+        """the module's script as a ["ret", items] script with an item for every declared output port"""
+        h = md["h"]
+        if not h or h[0] != "ret":
+            md["h"] = h = ["ret", []]
+        have = {k for k, _v in h[1]}
+        for j, pt in enumerate(md["out"]):
+            if j not in have:
+                h[1].append([j, self._good_val(rng, pt)])
+        return h
+
+    def _add_relay(self, rng, c):
+        """one more output port on a module that has an input port, fed by handing back the object received on that input port;
+        usually a consumer of the new port as well"""
+        mods = c["mods"]
+        cand = [m for m, md in enumerate(mods) if md["in"] and len(md["out"]) < 3]
+        if not cand:
+            return None
+        m = rng.choice(cand)
+        md = mods[m]
+        q = rng.randrange(len(md["in"]))
+        pin = md["in"][q]
+        wired = [w for w in accepted_wires(c) if w[2] == m and w[3] == q]
+        over = False
+        if wired:
+            # a downgrading wire: the input port asks for less than the source port is declared at (every wire stays acceptable)
+            st = mods[wired[0][0]]["out"][wired[0][1]]
+            if rng.random() < 0.6:
+                self._lower_in(rng, c, m, q, st[1])
+            over = st[1] > pin[1]
+        else:
+            for e in c["ext"]:
+                if e[0] == m:
+                    for it in e[1]:
+                        if it[0] == q and rng.random() < 0.7:
+                            it[1] = ["lab", pin[0], rng.randint(pin[1], 2), rng.randint(-3, 9)]
+                            over = it[1][2] > pin[1]
+        k = rng.random()
+        if k < 0.55:
+            po = list(pin)                                  # the very port type of the input port
+        elif k < 0.85:
+            po = [pin[0], rng.randrange(3)]
+        else:
+            po = self._pt(rng, list(range(7)))
+        h = self._ensure_ret(rng, md)
+        j = len(md["out"])
+        md["out"].append(po)
+        h[1].insert(rng.randint(0, len(h[1])), [j, ["fwd", q]])
+        if len(mods) < 7 and rng.random() < 0.6:
+            mods.append({"in": [[po[0], rng.randint(0, po[1])]], "out": [], "caps": [], "h": rng.choice([None, ["ret", []]])})
+            c["wires"].append([m, j, len(mods) - 1, 0])
+        return "relay:" + ("same-port-type" if po == pin else "other-port-type") + ("+over-labelled-value" if over else "")
+
+    def _lower_in(self, rng, c, m, q, top):
+        """input port q of module m asks for some integrity in 0..top instead (unless a refused attempt would then be accepted)"""
+        pin = c["mods"][m]["in"][q]
+        old = pin[1]
+        pin[1] = rng.randint(0, top)
+        if sum(1 for w in accepted_wires(c) if w[2] == m and w[3] == q) > 1:
+            pin[1] = old
+
+    def _add_alias(self, rng, c):
+        """one TypedValue object that reaches an input port (given from outside, or returned by the module wired into the port) is
+        ALSO what some module returns on one more output port -- usually one declared with the port type of that input port"""
+        mods = c["mods"]
+        ins = [(m, q) for m, md in enumerate(mods) for q in range(len(md["in"]))]
+        hosts = [m for m, md in enumerate(mods) if len(md["out"]) < 3]
+        if not ins or not hosts:
+            return None
+        m, q = rng.choice(ins)
+        pin = mods[m]["in"][q]
+        pool = c.setdefault("pool", [])
+        k = len(pool)
+        wired = [w for w in accepted_wires(c) if w[2] == m and w[3] == q]
+        if wired:
+            sm, sp = wired[0][0], wired[0][1]
+            st = mods[sm]["out"][sp]
+            if rng.random() < 0.6:
+                self._lower_in(rng, c, m, q, st[1])            # a downgrading wire
+            pool.append([st[0], st[1], rng.randint(-3, 9)])
+            h = self._ensure_ret(rng, mods[sm])
+            for it in h[1]:
+                if it[0] == sp:
+                    it[1] = ["sh", k]
+            how = "over-a-wire"
+        else:
+            pool.append([pin[0], rng.randint(pin[1], 2), rng.randint(-3, 9)])
+            self._add_ext(c, m, q, ["sh", k])
+            for e in c["ext"]:
+                if e[0] == m:
+                    for it in e[1]:
+                        if it[0] == q:
+                            it[1] = ["sh", k]
+            how = "from-outside"
+        # usually a module that runs after the object has arrived: one downstream of the input port's module
+        down, grew = {m}, True
+        while grew:
+            grew = False
+            for w in accepted_wires(c):
+                if w[0] in down and w[2] not in down:
+                    down.add(w[2])
+                    grew = True
+        later = [h for h in hosts if h in down and h != m]
+        m2 = rng.choice(later if later and rng.random() < 0.7 else hosts)
+        md2 = mods[m2]
+        po = list(pin) if rng.random() < 0.7 else [pin[0], rng.randrange(3)]
+        h2 = self._ensure_ret(rng, md2)
+        md2["out"].append(po)
+        h2[1].append([len(md2["out"]) - 1, ["sh", k]])
+        return "alias:" + how + (",label-above-the-port" if pool[k][1] > pin[1] else "")
+
+    def _widen3(self, rng, c, p_apply):
+        if rng.random() >= p_apply:
+            return
+        r = rng.random
+        mods = c["mods"]
+        n = len(mods)
+        tags = []
+        scripts = [(m, md["h"]) for m, md in enumerate(mods)] + [(o[1], o[2]) for o in c.get("ops") or [] if o[0] == "reg"]
+        scripts = [(m, h) for m, h in scripts if m < n and h and h[0] == "ret"]
+        exts = [c["ext"]] + [o[1] for o in c.get("ops") or [] if o[0] == "exec"]
+        # (a) hand back what was received
+        if r() < 0.7:
+            for m, h in scripts:
+                md = mods[m]
+                for it in h[1]:
+                    if it[0] >= len(md["out"]) or not md["in"] or it[1][0] in ("fwd", "sh"):
+                        continue
+                    po = md["out"][it[0]]
+                    same = [q for q, pi in enumerate(md["in"]) if pi[0] == po[0]]
+                    if same and r() < 0.5:
+                        q = rng.choice(same)
+                        it[1] = ["fwd", q]
+                        tags.append("forward:same-data-type")
+                        if r() < 0.4 and md["in"][q] != po:
+                            # the two ports get the same port type: the input port asks for less or the output port promises more
+                            # (either way every accepted wire stays accepted)
+                            if po[1] < md["in"][q][1]:
+                                md["in"][q][1] = po[1]
+                            else:
+                                po[1] = md["in"][q][1]
+                    elif r() < 0.06:
+                        it[1] = ["fwd", rng.randrange(len(md["in"]) + 1)]
+                        tags.append("forward:any-port")
+        # (b) one object in several places
+        if r() < 0.55:
+            ports = [pt for md in mods for pt in md["out"] + md["in"]]
+            if ports:
+                pool = c.setdefault("pool", [])
+                for _ in range(rng.choice([1, 1, 2])):
+                    d, i = rng.choice(ports)
+                    if r() < 0.3:
+                        i = rng.randrange(3)
+                    k = len(pool)
+                    pool.append([d, i, rng.randint(-3, 9)])
+                    used = 0
+                    for m, h in scripts:
+                        for it in h[1]:
+                            if it[0] < len(mods[m]["out"]) and mods[m]["out"][it[0]][0] == d and it[1][0] != "fwd":
+                                # where its label is the declared one: usually; where it contradicts the declaration: sometimes
+                                if r() < (0.6 if mods[m]["out"][it[0]][1] == i else 0.3):
+                                    it[1] = ["sh", k]
+                                    used += 1
+                    for ext in exts:
+                        for e in ext:
+                            for it in e[1]:
+                                if e[0] < n and it[0] < len(mods[e[0]]["in"]):
+                                    pi = mods[e[0]]["in"][it[0]]
+                                    if pi[0] == d and (pi[1] <= i or r() < 0.1) and r() < 0.5:
+                                        it[1] = ["sh", k]
+                                        used += 1
+                    tags.append("shared-object:" + ("unused" if used == 0 else "one-place" if used == 1 else "several-places"))
+        if tags:
+            c["tags"] = c["tags"] + sorted(set(tags))
 
     OBJ_SHAPES = ["token", "token", "duck", "duck", "dict", "tvlist", "str"]
 
@@ -639,7 +868,7 @@ class C16(Check):
                 if ms["in"] or not ms["h"] or ms["h"][0] != "ret":
                     continue
                 v = next((v for k, v in ms["h"][1] if k == sp), None)
-                if v is None or v[0] == "obj" or (v[0] == "lab" and v[1:3] != ms["out"][sp]):
+                if v is None or v[0] in ("obj", "fwd", "sh") or (v[0] == "lab" and v[1:3] != ms["out"][sp]):
                     continue
                 cand.append((sm, sp, dm, dp, v[1] if v[0] == "raw" else v[3]))
             if cand:
@@ -745,6 +974,24 @@ class C16(Check):
                                      {"in": [[s[0], 0]], "out": [], "caps": [], "h": ["ret", []]}],
                             "wires": [[0, 0, 1, 0]], "ext": [[0, [[0, copy.deepcopy(v)]]]], "enforce": True,
                             "tags": ["exhaustive:raw-value-claiming-a-label"]})
+        # relays: a value labelled `lab` admissible on an input port declared `s` (same data type, at least its integrity) arrives
+        # from outside / over a wire, is handed back as it is on an output port declared `o` (every integrity of that data type,
+        # and another data type), which feeds an UNTRUSTED consumer; also handed back twice (two output ports declared `o`)
+        for s in pts:
+            for li in range(s[1], 3):
+                lab = [s[0], li]
+                for o in [[s[0], i] for i in range(3)] + [[(s[0] + 1) % 7, s[1]]]:
+                    relay = {"in": [s], "out": [o], "caps": [], "h": ["ret", [[0, ["fwd", 0]]]]}
+                    sink = {"in": [[o[0], 0]], "out": [], "caps": [], "h": None}
+                    out.append({"mods": [copy.deepcopy(relay), copy.deepcopy(sink)], "wires": [[0, 0, 1, 0]],
+                                "ext": [[0, [[0, ["lab", lab[0], lab[1], 6]]]]], "enforce": True,
+                                "tags": ["exhaustive:relay-external"]})
+                    src = {"in": [], "out": [lab], "caps": [], "h": ["ret", [[0, ["raw", 6]]]]}
+                    out.append({"mods": [copy.deepcopy(sink), copy.deepcopy(relay), src], "wires": [[2, 0, 1, 0], [1, 0, 0, 0]],
+                                "ext": [], "enforce": o[1] != 1, "tags": ["exhaustive:relay-wire"]})
+                    relay2 = {"in": [s], "out": [o, o], "caps": [], "h": ["ret", [[1, ["fwd", 0]], [0, ["fwd", 0]]]]}
+                    out.append({"mods": [relay2], "wires": [], "pool": [lab + [2]],
+                                "ext": [[0, [[0, ["sh", 0]]]]], "enforce": True, "tags": ["exhaustive:relay-two-ports-shared-object"]})
         return out
 
     # -- implementation ----------------------------------------------------
@@ -777,9 +1024,19 @@ class C16(Check):
         def tv_codes(t):
             return [DT.index(t.data_type), IL.index(t.integrity), payload_int(t.value)]
 
-        def mkval(v, s=0):
+        # TypedValue objects built ONCE per case, before anything runs: wherever a script or an external-input assignment names
+        # ["sh", k] it gets this very object (several ports, several modules, several executions, several executors)
+        pool = [R.TypedValue(DT[dd], IL[ii], cc) for dd, ii, cc in case.get("pool") or []]
+
+        def mkval(v, s=0, inputs=None):
             if v[0] == "raw":
                 return v[1] + s
+            if v[0] == "sh":
+                return pool[v[1]]
+            if v[0] == "fwd":
+                # the very object the executor put into the handler's inputs dict (the raw value 0 when there is no such port)
+                t = None if inputs is None else inputs.get(inn(v[1]))
+                return 0 if t is None else t
             if v[0] == "lab":
                 return R.TypedValue(DT[v[1]], IL[v[2]], v[3] + s)
             # ["obj", shape, d, i, c]: a raw value (not a TypedValue) of another Python type that says something about
@@ -868,9 +1125,14 @@ class C16(Check):
                     rec["returned"].append((i, []))
                     return None
                 s = sum((p + 1) * t[2] for p, t in enumerate(row) if t is not None)
-                items = [(k, v) for k, v in script[1]]
+                ret, items = {}, []
+                for k, v in script[1]:
+                    o = mkval(v, s, inputs)
+                    ret[outn(k)] = o
+                    # what was really handed back: the label the object carries when it is a TypedValue (None: a raw value)
+                    items.append((k, v, [DT.index(o.data_type), IL.index(o.integrity)] if isinstance(o, R.TypedValue) else None))
                 rec["returned"].append((i, items))
-                return {outn(k): mkval(v, s) for k, v in items}
+                return ret
             return h
 
         def stale(_inputs):
@@ -1066,9 +1328,14 @@ class C16(Check):
         def cpt(p):
             return f"({DTN[p[0]]}, {ILN[p[1]]})"
 
+        pool = case.get("pool") or []
+
         def cval(v):
             if v[0] == "raw":
                 return f"(Raw {cz(v[1])})"
+            if v[0] == "sh":            # as an external input: a TypedValue like any other (the model has no object identities)
+                dd, ii, cc = pool[v[1]]
+                return f"(Lab (mkTV {DTN[dd]} {ILN[ii]} {cz(cc)}))"
             if v[0] == "obj":
                 return f"(RawClaim {_opt(DTN, v[2])} {_opt(ILN, v[3])} {cz(v[4])})"
             return f"(Lab (mkTV {DTN[v[1]]} {ILN[v[2]]} {cz(v[3])}))"
@@ -1080,7 +1347,15 @@ class C16(Check):
                 return "HSRaise"
             if h[0] == "none":          # returns None: `handler(inputs) or {}` makes it the empty dict
                 return "(HSRet [])"
-            return "(HSRet " + clist([ctuple(cnat(k), cval(v)) for k, v in h[1]]) + ")"
+            return "(HSRet " + clist([ctuple(cnat(k), csval(v)) for k, v in h[1]]) + ")"
+
+        def csval(v):
+            if v[0] == "fwd":
+                return f"(SFwd {cnat(v[1])})"
+            if v[0] == "sh":
+                dd, ii, cc = pool[v[1]]
+                return f"(SConst (mkTV {DTN[dd]} {ILN[ii]} {cz(cc)}))"
+            return f"(SV {cval(v)})"
 
         cms = clist([ctuple(clist([cpt(p) for p in md["in"]]), clist([cpt(p) for p in md["out"]]),
                             clist([CAPN[c] for c in md["caps"]]), ch(md["h"])) for md in case["mods"]])
@@ -1197,12 +1472,19 @@ class C16(Check):
         if any(k > 1 for k in counts.values()):
             return Violation("C16/module-ran-twice", f"handler invocation counts {counts}{where}")
         # 3. handler outputs that contradict the declared port are rejected
+        # (whatever the TypedValue is: built for the occasion, the very object the module received on an input port, or an object
+        # that is also handed out elsewhere -- the property knows labels only)
         for (m, items) in trace["returned"]:
-            for k, v in items:
-                if k < len(mods[m]["out"]) and v[0] == "lab" and [v[1], v[2]] != mods[m]["out"][k]:
+            for k, v, lab in items:
+                if k < len(mods[m]["out"]) and lab is not None and lab != mods[m]["out"][k]:
                     if not wiring_error:
+                        how = (f"handed back the value it received on its input port {v[1]} (declared {mods[m]['in'][v[1]]}), labelled {lab},"
+                               if v[0] == "fwd" else
+                               f"returned the shared value #{v[1]} labelled {lab} (an object that is also used elsewhere in this case)"
+                               if v[0] == "sh" else f"returned a value labelled {lab}")
                         return Violation("C16/mislabelled-output-accepted",
-                                         f"module {m} returned {v[1:3]} on output port {k} declared {mods[m]['out'][k]} and execute ended with {ERRNAME.get(kind, kind)}{where}")
+                                         f"module {m} {how} on output port {k} declared {mods[m]['out'][k]} and execute ended with "
+                                         f"{ERRNAME.get(kind, kind)} ([dtype, integrity] codes){where}")
         # 5. unschedulable diagrams raise a wiring error
         wired = {}
         for (_sm, _sp, dm, dp) in acc:
